@@ -571,6 +571,14 @@ def run_property(ctx):
     for g, msg in failed_groups.items():
         if g == "*" or g in spec.groups:
             ctx.broken.append({"obligation": "translator group '%s' (model definitions regenerated from the source)" % g, "why": msg})
+    # 1b. source fingerprints of the hand-modelled functions / classes
+    fp = C.fingerprints()
+    if fp.get("error"):
+        ctx.broken.append({"obligation": "source fingerprints", "why": fp["error"]})
+    for unit in fp.get("props", {}).get(ctx.prop, []):
+        ctx.broken.append({"obligation": "source fingerprint of `%s` (include/ffsm2/machine.hpp) — the model of this unit was validated against different text" % unit,
+                           "why": "changed / missing / new since tools/fingerprints.json was recorded"})
+    ctx.extra["fingerprinted_units"] = fp.get("units")
     # 2. driver + proofs
     ok, logtxt = C.ensure_driver()
     proof = {"obligations": 0, "discharged": 0, "theorems": [], "axioms": {}, "broken": []}
